@@ -2,6 +2,7 @@ import MaddyVerif.Model.Errors
 import MaddyVerif.Model.ErrorsNextHop
 import MaddyVerif.Model.ErrorsQueueHist
 import MaddyVerif.Model.ErrorsOwn
+import MaddyVerif.Model.ErrorsChecks
 import MaddyVerif.Generated.SmtpLits
 import MaddyVerif.Expect.SmtpLits
 /-!
@@ -43,6 +44,16 @@ theorem annOk_cases {c : Nat} {en : Ench} (h : annOk c en = true) :
   · left
     simp [hn] at h
     exact ⟨by simpa using hn, h.1, h.2⟩
+
+/-- the same split by what `toSMTPErr` looks at since fix 9efcd5b: the class of the enhanced code -/
+theorem annOk_cls_cases {c : Nat} {en : Ench} (h : annOk c en = true) :
+    ((en.cls == 0) = false ∧ en.cls = c / 100 ∧ (en.cls = 4 ∨ en.cls = 5)) ∨
+    ((en.cls == 0) = true ∧ (c / 100 = 4 ∨ c / 100 = 5)) := by
+  rcases annOk_cases h with ⟨_, h1, h2⟩ | ⟨hn, h2⟩
+  · left; refine ⟨?_, h1, h2⟩
+    rcases h2 with h2 | h2 <;> simp [h2]
+  · right; refine ⟨?_, h2⟩
+    unfold notSet at hn; simp at hn; simp [hn.1]
 
 /-- On the wire an annotation that is `annOk` is coherent (go-smtp fills in class.0.0 when the
 enhanced code is unset). -/
@@ -127,7 +138,7 @@ theorem C16_queue_record_classes_agree (e : Err) (h : LeavesCoherent e) (hm : Ma
   · obtain ⟨c, en, m, rfl⟩ := hraw
     have h3 : annOk c en = true := by simpa [LeavesCoherent] using h
     unfold toSMTPErr; simp only [pickEnch]
-    rcases annOk_cases h3 with ⟨hn, h4, h5⟩ | ⟨hn, h5⟩
+    rcases annOk_cls_cases h3 with ⟨hn, h4, h5⟩ | ⟨hn, h5⟩
     · simp only [hn, Bool.false_eq_true, ↓reduceIte]
       exact ⟨en, rfl, h4, h5⟩
     · simp only [hn, ↓reduceIte]
@@ -146,7 +157,7 @@ theorem C16_queue_record_classes_agree (e : Err) (h : LeavesCoherent e) (hm : Ma
       · simp [ht]; exact ⟨⟨4,0,0⟩, rfl, by simp, by simp⟩
       · simp [ht]; exact ⟨⟨5,0,0⟩, rfl, by simp, by simp⟩
     · simp only [h1, h2, Option.getD_some, pickEnch]
-      rcases annOk_cases h3 with ⟨hn, h4, h5⟩ | ⟨hn, h5⟩
+      rcases annOk_cls_cases h3 with ⟨hn, h4, h5⟩ | ⟨hn, h5⟩
       · simp only [hn, Bool.false_eq_true, ↓reduceIte]
         exact ⟨en, rfl, h4, h5⟩
       · simp only [hn, ↓reduceIte]
@@ -301,6 +312,13 @@ theorem C16_dynamic_literals_are_the_explained_ones :
     SmtpLits.dynamicLits = MaddyVerif.Expect.SmtpLits.dynamicLits := by
   decide +kernel
 
+open MaddyVerif.Generated in
+/-- No other statement of the tree adjusts the Code / EnhancedCode of an error value after it was built than
+the explained ones (an adjustment of only one of the two codes is how a coherent literal goes wrong). -/
+theorem C16_code_field_writes_are_the_explained_ones :
+    SmtpLits.fieldWrites = MaddyVerif.Expect.SmtpLits.fieldWrites := by
+  decide +kernel
+
 /-- **C16 (reject directive).** Whatever the `reject` directive's arguments, an accepted directive
 with at most a basic code yields a coherent pair (in the pipeline's own parser: when that code is
 5yz — see `C16_pipeline_reject_4yz_counterexample`); with an explicit enhanced code it is
@@ -423,7 +441,7 @@ theorem good_of_top_annotated (c : Nat) (en : Ench) (m : List Nat) (i : Err)
         ⟨c, some (pickEnch (some en) (if c / 100 == 4 then ⟨4,0,0⟩ else ⟨5,0,0⟩)), .text m⟩ := by
       simp [toSMTPErr, codeField, enchField, msgField, msgOf, isTemporaryOrUnspec, tempOf]
     rw [hshape]
-    rcases annOk_cases h with ⟨hn, h1, h2⟩ | ⟨hn, h2⟩
+    rcases annOk_cls_cases h with ⟨hn, h1, h2⟩ | ⟨hn, h2⟩
     · simp only [pickEnch, hn, Bool.false_eq_true, ↓reduceIte]; exact ⟨en, rfl, h1, h2⟩
     · simp only [pickEnch, hn, ↓reduceIte]
       rcases h2 with h2 | h2
@@ -1081,5 +1099,138 @@ example : (AuthPre.none).tag = (AuthPre.none).tag ∧
     [some (Err.withTemp true .plain)].map Option.isSome = [some (Err.smtp 535 ⟨5, 7, 8⟩ [])].map Option.isSome := by
   decide
 example : authReply (createSASL .login .mapHit [some .plain, none]) = ⟨235, ⟨2, 0, 0⟩, .succeeded⟩ := by decide
+
+/-! ## Verdicts of checks: the DMARC rejection of `applyResults`, the fail action of a check
+(`ParseActionDirective` / `FailAction.Apply`) — the two places of the pipeline that build an `SMTPError` from
+COMPUTED codes (strengthening round 8) -/
+
+/-- The computed pair of the DMARC rejection is class-coherent for every value of the evaluation. -/
+theorem dmarc_pair_coherent (v : DmarcVal) : pairOk (dmarcCode v) (dmarcEnch v) = true := by
+  cases v <;> decide
+
+theorem good_of_smtp_leaf (c : Nat) (en : Ench) (m : List Nat) (h : annOk c en = true) : Good (.smtp c en m) := by
+  apply good_of_wellformed
+  · simpa [LeavesCoherent] using h
+  · intro c' hc; simp [codeField] at hc; subst hc; simp [tempOf]
+
+/-- **C16 (DMARC).** For EVERY way the policy lookup can end and EVERY pair of SPF / DKIM results: when the
+pipeline refuses the message on the DMARC verdict, the failure is good (reply and record class-coherent,
+retried ⇔ 4yz), and it is a 4yz / retried failure exactly when the evaluation ended with `temperror`
+(the lookup failed temporarily, or an aligned identifier could not be checked) — 5yz otherwise. -/
+theorem C16_dmarc_rejection_coherent (lk : RecLookup) (spf dkim : Option IdRes) (e : Err)
+    (h : dmarcVerdict lk spf dkim = .refused e) :
+    Good e ∧
+    (queueRetries e = true ↔ (verifierApply lk spf dkim).1 = .tempError) ∧
+    (∀ mang, (wrapErr mang e).code / 100 = 4 ↔ (verifierApply lk spf dkim).1 = .tempError) ∧
+    (∀ mang, (wrapErr mang e).code / 100 = 5 ↔ (verifierApply lk spf dkim).1 ≠ .tempError) := by
+  unfold dmarcVerdict dmarcApply at h
+  generalize verifierApply lk spf dkim = r at h ⊢
+  obtain ⟨v, pol⟩ := r
+  cases pol <;> simp at h
+  subst h
+  refine ⟨good_of_smtp_leaf _ _ _ (annOk_of_pairOk (dmarc_pair_coherent v)), ?_, ?_, ?_⟩
+  · cases v <;> decide
+  · intro mang; cases v <;> cases mang <;> decide
+  · intro mang; cases v <;> cases mang <;> decide
+
+/-- A message is refused on the DMARC verdict only when the policy to apply is `reject`. -/
+theorem C16_dmarc_refuses_only_under_reject (lk : RecLookup) (spf dkim : Option IdRes) (e : Err)
+    (h : dmarcVerdict lk spf dkim = .refused e) : (verifierApply lk spf dkim).2 = .reject := by
+  unfold dmarcVerdict dmarcApply at h
+  generalize verifierApply lk spf dkim = r at h ⊢
+  obtain ⟨v, pol⟩ := r
+  cases pol <;> simp at h
+  rfl
+
+/-- 'Fail closed': a temporary failure of the policy lookup refuses the message with 450 4.7.1, whatever
+SPF and DKIM said. -/
+theorem C16_dmarc_temporary_lookup_failure_is_retry_later (spf dkim : Option IdRes) :
+    dmarcVerdict .tempDNS spf dkim = .refused (.smtp 450 ⟨4, 7, 1⟩ dmarcMsg) := by
+  simp [dmarcVerdict, verifierApply, dmarcApply, dmarcCode, dmarcEnch]
+
+/-- What `ParseActionDirective` accepts with an override came out of `ParseRejectDirective`. -/
+theorem parseAction_override {k : ActKind} {a : RejectArgs} {msg : List Nat} {fa : FailAction}
+    {c : Nat} {en : Ench} {m : List Nat}
+    (hp : parseAction k a msg = some fa) (ho : fa.override = some (c, en, m)) :
+    parseReject true a = some (c, en) := by
+  unfold parseAction at hp
+  cases k
+  case invalid => simp at hp
+  case ignore => simp at hp; subst hp; simp at ho
+  all_goals
+    simp only at hp
+    split at hp
+    · simp at hp; subst hp; simp at ho
+    · cases hr : parseReject true a with
+      | none => simp [hr] at hp
+      | some ce =>
+        obtain ⟨c', e'⟩ := ce
+        simp [hr] at hp; subst hp; simp at ho
+        obtain ⟨rfl, rfl, _⟩ := ho; rfl
+
+/-- **C16 (fail action, the wrapping).** The administrator's status wrapped around ANY reason of a check
+(temporary or permanent, annotated or not, marked or not): as soon as the override pairs codes of one class
+the failure is good, and it is treated — retried or not — by the class of the override, not of the reason. -/
+theorem C16_fail_action_override_coherent (c : Nat) (en : Ench) (m : List Nat) (reason : Err)
+    (h : pairOk c en = true) :
+    Good (applyOverride (some (c, en, m)) reason) ∧
+    queueRetries (applyOverride (some (c, en, m)) reason) = (c / 100 == 4) ∧
+    (toSMTPErr (applyOverride (some (c, en, m)) reason)).code = c ∧
+    (hasDeadline reason = false → ∀ mang, (wrapErr mang (applyOverride (some (c, en, m)) reason)).code = c) := by
+  refine ⟨good_of_top_annotated c en m reason (annOk_of_pairOk h), ?_, ?_, ?_⟩
+  · simp [applyOverride, queueRetries, isTemporaryOrUnspec, tempOf]
+  · simp [applyOverride, toSMTPErr, codeField]
+  · intro hd mang
+    cases mang <;> simp [applyOverride, wrapErr, hasDeadline, hd, codeField]
+
+/-- **C16 (fail action, end to end).** For EVERY action directive the parser accepts and EVERY reason of the
+check: when the pipeline refuses the message, the error is the administrator's status around the reason —
+good whenever the directive gives at most a basic code, or gives an enhanced code of the class of the basic
+code — or, without an override, the check's own reason unchanged. -/
+theorem C16_fail_action_refusal_coherent (k : ActKind) (a : RejectArgs) (msg : List Nat) (fa : FailAction)
+    (reason e : Err) (hp : parseAction k a msg = some fa)
+    (hv : failActionVerdict fa (some reason) = .refused e) :
+    (∀ c en m, fa.override = some (c, en, m) → (a.nargs ≤ 1 ∨ en.cls = c / 100) →
+      Good e ∧ queueRetries e = (c / 100 == 4)) ∧
+    (fa.override = none → e = reason) := by
+  have he : e = applyOverride fa.override reason := by
+    unfold failActionVerdict at hv
+    simp only at hv
+    split at hv
+    · cases hv
+    · split at hv
+      · simp at hv; exact hv.symm
+      · cases hv
+  subst he
+  constructor
+  · intro c en m ho hcls
+    have hr := parseAction_override hp ho
+    have hd := C16_reject_directive_coherent true a c en hr
+    have hpair : pairOk c en = true := by
+      rcases hcls with h1 | h2
+      · exact hd.1 h1 (Or.inl rfl)
+      · by_cases hn : a.nargs ≤ 1
+        · exact hd.1 hn (Or.inl rfl)
+        · exact (hd.2 (by omega)).2 h2
+    rw [ho]
+    exact ⟨(C16_fail_action_override_coherent c en m reason hpair).1,
+           (C16_fail_action_override_coherent c en m reason hpair).2.1⟩
+  · intro ho; rw [ho]; rfl
+
+/-- non-vacuity: the scenarios the reviewers' changes break.  `reject 550 5.7.27` on a check that failed
+on a temporary DNS error: 550 5.7.27 to the client and in the record, not retried; the DMARC policy lookup
+failing temporarily: 450 4.7.1, retried -/
+example : parseAction .reject ⟨2, some 550, some ⟨5, 7, 27⟩, true⟩ [] =
+    some ⟨true, false, some (550, ⟨5, 7, 27⟩, localPolicyMsg)⟩ := by rfl
+example : failActionVerdict ⟨true, false, some (550, ⟨5, 7, 27⟩, localPolicyMsg)⟩ (some (.net true)) =
+    .refused (.smtpWrap 550 ⟨5, 7, 27⟩ localPolicyMsg (.net true)) := by rfl
+example : wrapErr true (.smtpWrap 550 ⟨5, 7, 27⟩ localPolicyMsg (.net true)) = ⟨550, some ⟨5, 7, 27⟩, .text localPolicyMsg⟩ ∧
+    queueRetries (.smtpWrap 550 ⟨5, 7, 27⟩ localPolicyMsg (.net true)) = false := by decide
+example : pairOk 550 ⟨5, 7, 27⟩ = true := by decide
+example : (verifierApply .tempDNS none none).1 = .tempError := by decide
+example : dmarcVerdict (.record false .reject none) (some ⟨.fail, true⟩) (some ⟨.tempError, true⟩) =
+    .refused (.smtp 450 ⟨4, 7, 1⟩ dmarcMsg) := by rfl
+example : dmarcVerdict (.record true .none (some .reject)) (some ⟨.fail, true⟩) (some ⟨.fail, false⟩) =
+    .refused (.smtp 550 ⟨5, 7, 1⟩ dmarcMsg) := by rfl
 
 end MaddyVerif.C16
